@@ -524,7 +524,7 @@ func init() {
 		ID:    "C12",
 		Level: "exploration",
 		Rule: "cases are Go values generated by type-directed recursion to depth 4: bool, string (empty, markup, UTF-8, template syntax), every integer width with its extremes (unsigned up to MaxInt64), float32/64, nil, pointers 1-3 levels deep and nil at every level, typed and untyped slices (nil, empty, of pointers, of structs), string-keyed maps (nil, empty, keys that differ only in case, non-identifier keys), static structs with unexported fields and interface fields, struct types built at run time with reflect.StructOf, unsupported kinds (chan, func, complex, array, uintptr) planted at any depth; " +
-			"for each value the expected view gives a set of access paths (dot, index, lower-cased first letter, out-of-range and missing names, unexported names) with the expected text or error; each path is rendered by the real code; the value is built twice from the same seed and the copy handed to the render must stay deeply equal to the other. also defined map/key/slice types, unsupported values under unspellable top-level names with templates that ignore the data (incl. the empty one, EvaluateFile), data arrays re-printed after built-ins ran on them; postfix operators on data numbers, arguments named like data; round 8: fields named outside ASCII, keys with quotes and backslashes; round 9: values reachable twice, entry points; scale: large values; concurrent replay; rounds 10-11: names like keywords, digraph capitals, leading-zero positions, types with methods; round 12: keys held in variables; round 14: values as insert and component arguments and in slot bodies; round 15: values inside loops and branches, nil insert arguments; round 16: scalars of the data in every position of use against the equal literal; distinct_nontrivial = distinct (value, path) pairs",
+			"for each value the expected view gives a set of access paths (dot, index, lower-cased first letter, out-of-range and missing names, unexported names) with the expected text or error; each path is rendered by the real code; the value is built twice from the same seed and the copy handed to the render must stay deeply equal to the other. also defined map/key/slice types, unsupported values under unspellable top-level names with templates that ignore the data (incl. the empty one, EvaluateFile), data arrays re-printed after built-ins ran on them; postfix operators on data numbers, arguments named like data; round 8: fields named outside ASCII, keys with quotes and backslashes; round 9: values reachable twice, entry points; scale: large values; concurrent replay; rounds 10-11: names like keywords, digraph capitals, leading-zero positions, types with methods; round 12: keys held in variables; round 14: values as insert and component arguments and in slot bodies; round 15: values inside loops and branches, nil insert arguments; round 16: scalars of the data in every position of use against the equal literal; round 17: negative zero and a negative half against the equal literal; distinct_nontrivial = distinct (value, path) pairs",
 		Assumptions: []string{
 			"a nil map is seen as an empty object and a nil slice as an empty array; named scalar types and non-string map keys are not in the statement and not generated",
 			"an unsupported value only counts when it is reachable through exported fields",
